@@ -120,6 +120,8 @@ const Const = "c"
 func New() *T { return &T{} }
 
 func NewT() T { return T{} }
+
+func Bad() (*T, int) { return nil, 0 }
 `
 
 // forms: text uses "wire." which is rewritten for dot / renamed imports.
@@ -130,7 +132,7 @@ var c20Item = []string{
 	"names", "new(int)", "struct{}{}", "[]int{1}", "map[string]int{}", "G[int]{}", "Pair[int, string]{}", "up", "unsafe.Pointer(nil)", "wire.ProviderSet{}", "&wire.ProviderSet{}", "*new(wire.ProviderSet)",
 	"wire.Binding{}", "wire.ProvidedValue{}", "wire.StructProvider{}", "wire.StructFields{}", "[]interface{}{NewS}", "interface{}(NewS)", "any(NewS)", "I(nil)", "error(nil)", "C{}", "ps", "one", "iota_",
 	"wire.NewSet(NewS, nil)", "wire.NewSet(nil)", "wire.NewSet(x)", "wire.NewSet(wire.Value)", "wire.Build(NewS)", "wire.NewSet(wire.Build(NewS))", "(wire.NewSet)(NewInt)", "(wire.NewSet(NewInt))",
-	"wire.NewSet(args...)", "wire.NewSet(names)", "conf.Default", "conf.Const", "conf.New", "conf.T{}", "conf.NewT", "conf.PT", "conf.Fn", "os.Stdin", "fmt.Sprint", "errors.New", "conf.T.Method", "conf.Default2", "pair", "NewSFrom", "fieldName", "fieldName()", "len", "new", "make([]int, 1)", "S.M", "struct{ A int }{1}", "[1]S{}", "chan int(nil)", "(chan int)(nil)",
+	"wire.NewSet(args...)", "wire.NewSet(names)", "conf.Default", "conf.Const", "conf.New", "conf.T{}", "conf.NewT", "conf.PT", "conf.Fn", "os.Stdin", "fmt.Sprint", "errors.New", "conf.T.Method", "conf.Default2", "os.Exit", "errors.Is", "os.Args", "fmt.Errorf", "conf.Bad", "psets.BadSet", "psets.OKSet", "psets.Nested", "pair", "NewSFrom", "fieldName", "fieldName()", "len", "new", "make([]int, 1)", "S.M", "struct{ A int }{1}", "[1]S{}", "chan int(nil)", "(chan int)(nil)",
 }
 
 var c20StructArg0 = []string{"new(conf.T)", "new(conf.G[int])", "new(S)", "(new(S))", "&S{}", "(*S)(nil)", "new(struct{ A int })", "new(G[int])", "new(Pair[int, string])", "new(int)", "new(*S)", "nil", "S{}", "new(I)", "new(F)", "ps", "NewPS()", "new(T)", "new(C)", "&struct{ A int }{}", "x", "new(wire.ProviderSet)", "new([]S)", "new(map[string]S)", "interface{}(new(S))", "any(nil)", "Gen[*S]()"}
@@ -324,10 +326,14 @@ func (cs *C20Case) files() map[string]string {
 	if strings.Contains(body, "conf.") {
 		fmt.Fprintf(&w, "\t%q\n", ProgPath(cs.prog)+"/conf")
 	}
+	if strings.Contains(body, "psets.") {
+		fmt.Fprintf(&w, "\t%q\n", ProgPath(cs.prog)+"/psets")
+	}
 	fmt.Fprintf(&w, "\n\t%s\n)\n\n", imp)
 	w.WriteString(body)
 	w.WriteString(defsExtra)
-	return map[string]string{"defs.go": c20Defs + c20ResultDefs, "wire.go": w.String(), "conf/conf.go": c20Conf}
+	psets := "package psets\n\nimport (\n\t\"github.com/google/wire\"\n\n\t\"" + ProgPath(cs.prog) + "/conf\"\n)\n\nvar OKSet = wire.NewSet(conf.NewT)\n\nvar BadSet = wire.NewSet(conf.Bad)\n\nvar Nested = wire.NewSet(OKSet, wire.NewSet(wire.Value(conf.Default), conf.Fn))\n"
+	return map[string]string{"defs.go": c20Defs + c20ResultDefs, "wire.go": w.String(), "conf/conf.go": c20Conf, "psets/psets.go": psets}
 }
 
 // all enumerates the catalogue (for the thorough tier).
